@@ -123,12 +123,8 @@ Definition show_key (k : dkey) : string :=
   match k with
   | DNone => "-"
   | DUnclassified => "c20-unclassified"
-  | DKnown KIp6Run2 => "c20-ip6-run2"
-  | DKnown KIp6ExactFit => "c20-ip6-exact-fit"
-  | DKnown KIpArrIp4 => "c20-iparray-ip4-return"
-  | DKnown KIpArrRoom => "c20-iparray-ip6-room"
-  | DKnown KByteArrNeg => "c20-bytearray-negative-bound"
   | DKnown KNone => "-"
+  | DKnown KReserved => "c20-unclassified"
   end.
 
 Definition show_text (t : bytes) : string := "t:" ++ hex_of_bytes t.
